@@ -331,6 +331,7 @@ func (g *Gen) str(x d128.Decimal) { g.un("String", x) }
 
 func genC06(g *Gen) {
 	g.setMode(0)
+	g.encodingGrid(0.1, func(x d128.Decimal) { g.str(x) })
 	for !g.w.full() {
 		switch g.r.Intn(9) {
 		case 8: // both ends of the range, every coefficient shape; word-boundary coefficients
